@@ -152,7 +152,7 @@ var currentTier = "quick"
 var clauseKeywords = map[string]bool{
 	"property": true, "requires": true, "ensures": true, "modifies": true, "loop": true,
 	"inline": true, "trusted": true, "abstract": true, "nosafety": true, "replay": true,
-	"bounded": true, "note": true, "fnparam": true, "dispatch": true, "unroll": true, "assumes": true, "split": true, "fresh": true, "witness": true, "unguarded": true, "alsoinline": true, "timeout": true, "sets": true, "before": true, "rely": true,
+	"bounded": true, "note": true, "fnparam": true, "dispatch": true, "unroll": true, "assumes": true, "split": true, "fresh": true, "witness": true, "unguarded": true, "alsoinline": true, "timeout": true, "sets": true, "before": true, "rely": true, "entry-invariant": true,
 }
 
 var propPrefix = regexp.MustCompile(`^\[((?:C\d+\s*)+)\]\s*`)
@@ -431,6 +431,15 @@ func (c *Contract) addClause(text string, line int, file string) error {
 		if err != nil {
 			return err
 		}
+		c.Requires = append(c.Requires, cl)
+	case "entry-invariant":
+		// a precondition that holds between operations by an invariant over histories (protocol state of the
+		// file): assumed at entry, NOT demanded from callers; listed as an assumption of every run that uses it
+		cl, err := mk("requires", rest)
+		if err != nil {
+			return err
+		}
+		cl.Assumed = true
 		c.Requires = append(c.Requires, cl)
 	case "ensures":
 		cl, err := mk("ensures", rest)
